@@ -247,6 +247,9 @@ package parser
 // deliberately discarded (parsePoryswitchStatement); every function in between hands on exactly the records of
 // the holes made during its run - none is dropped, none is duplicated.
 //@ ghost var holes int
+// 'nstmt' counts the statements parseStatement hands to its caller (re-based at its return, so nested blocks do not
+// show): a block contains exactly the statements parsed for it, in order - none dropped, none added (C01, C03, C10)
+//@ ghost var nstmt int
 //@ pred ImpSize(d *impData) = (d == nil ? 0 : len(d.texts) + len(d.movements))
 
 //@ func (d *impData) add
@@ -335,6 +338,7 @@ package parser
 //@   ensures [C11,C18:autovar-taken] (result3 == nil && old(p.peekToken.Type) != token.VAR) ==> (result0 != nil && result1 != nil)
 //@   ensures [C06:slot] result3 == nil ==> (ImpOK(result2) && (result2 == nil || fresh(result2)))
 //@   modifies holes
+//@   modifies nstmt
 //@   ensures [C06:complete] result3 == nil ==> ImpSize(result2) == holes - old(holes)
 //@   ensures [C11,C18:autovar-results] (result3 == nil && result1 != nil) ==> (result0 != nil && fresh(result1))
 //@   ensures [C11,C18:autovar-var] (result3 == nil && result1 == nil) ==> result0 == nil
@@ -367,6 +371,7 @@ package parser
 // program that is returned; a clash is an error (C06, C20)
 //@ func (p *Parser) ParseProgram
 //@   modifies holes
+//@   modifies nstmt
 //@   requires [C18:pstate] PInv(p) && StackOK(p.breakStack) && StackOK(p.continueStack) && allocated(p.constants) && allocated(p.inlineTextCounts) && allocated(p.inlineMovementCounts)
 //@   requires [C18:pstate] p.constants != p.inlineMovementsSet
 //@   modifies fields(p), fields(p.l), fields(p.constants), fields(p.inlineTextCounts), fields(p.inlineMovementCounts), allof(ast.CommandStatement.Args)
@@ -403,6 +408,7 @@ package parser
 
 //@ func (p *Parser) parseTopLevelStatement
 //@   modifies holes
+//@   modifies nstmt
 //@   include TopFrame
 //@   ensures [C18:mov-named] result1 == nil ==> MoveNamed(result0)
 //@   requires [C18:text-stmts] TextStmtsOK(p)
@@ -486,6 +492,7 @@ package parser
 //@   ensures [C15:default-scope] result2 == nil ==> (result0 != nil && result0.Scope == old(ScopeFor(p, token.GLOBAL)) && (result0.Scope == token.GLOBAL || result0.Scope == token.LOCAL || old(p.peekToken.Type) != token.LPAREN))
 //@   ensures [C06:slot] result2 == nil ==> (ImpOK(result1) && (result1 == nil || fresh(result1)))
 //@   modifies holes
+//@   modifies nstmt
 //@   ensures [C06:complete] result2 == nil ==> ImpSize(result1) == holes - old(holes)
 //@   ensures [C20:stack-balanced] result2 == nil ==> (SameStack(p.breakStack, old(p.breakStack)) && SameStack(p.continueStack, old(p.continueStack)))
 //@   ensures [C18:located] result2 != nil ==> ErrLoc(result2)
@@ -494,6 +501,8 @@ package parser
 
 //@ func (p *Parser) parseBlockStatement
 //@   include ParseFrame
+//@   ensures [C01,C03,C10:block-complete] result2 == nil ==> len(result0.Statements) == nstmt - old(nstmt)
+//@   loopinv [C01,C03,C10:block-complete-inv] len(block.Statements) == nstmt - old(nstmt)
 //@   ensures [C18:block] result2 == nil ==> (result0 != nil && fresh(result0))
 //@   loopinv [C18:block-inv] block != nil && fresh(block)
 //@   requires [C18:start-token] 1 <= startToken.LineNumber && startToken.LineNumber <= startToken.EndLineNumber && startToken.LineNumber <= p.curToken.LineNumber
@@ -501,14 +510,21 @@ package parser
 //@   loopinv [C06:complete-inv] ImpSize(impData) == holes - old(holes)
 //@   ensures [C06:slot] result2 == nil ==> (ImpOK(result1) && (result1 == nil || fresh(result1)))
 //@   modifies holes
+//@   modifies nstmt
 //@   ensures [C06:complete] result2 == nil ==> ImpSize(result1) == holes - old(holes)
 //@   ensures [C20:stack-balanced] result2 == nil ==> (SameStack(p.breakStack, old(p.breakStack)) && SameStack(p.continueStack, old(p.continueStack)))
 //@   ensures [C18:located] result2 != nil ==> ErrLoc(result2)
 //@   loopinv [C20:stack-balanced-inv] SameStack(p.breakStack, old(p.breakStack)) && SameStack(p.continueStack, old(p.continueStack))
+//@   loop 1
+//@     transition [C01,C03,C10:block-order] len(block.Statements) == len(prev(block.Statements)) + len(statements)
+//@        && (forall k int :: {block.Statements[k]} (0 <= k && k < len(prev(block.Statements))) ==> block.Statements[k] == prev(block.Statements)[k])
+//@        && (forall k int :: {statements[k]} (0 <= k && k < len(statements)) ==> block.Statements[len(prev(block.Statements)) + k] == statements[k])
 //@ end
 
 //@ func (p *Parser) parseSwitchBlockStatement
 //@   include ParseFrame
+//@   ensures [C01,C03,C10:block-complete] result2 == nil ==> len(result0.Statements) == nstmt - old(nstmt)
+//@   loopinv [C01,C03,C10:block-complete-inv] len(block.Statements) == nstmt - old(nstmt)
 //@   ensures [C18:block] result2 == nil ==> (result0 != nil && fresh(result0))
 //@   loopinv [C18:block-inv] block != nil && fresh(block)
 //@   requires [C18:start-token] 1 <= startToken.LineNumber && startToken.LineNumber <= startToken.EndLineNumber && startToken.LineNumber <= p.curToken.LineNumber
@@ -516,17 +532,24 @@ package parser
 //@   loopinv [C06:complete-inv] ImpSize(impData) == holes - old(holes)
 //@   ensures [C06:slot] result2 == nil ==> (ImpOK(result1) && (result1 == nil || fresh(result1)))
 //@   modifies holes
+//@   modifies nstmt
 //@   ensures [C06:complete] result2 == nil ==> ImpSize(result1) == holes - old(holes)
 //@   ensures [C20:stack-balanced] result2 == nil ==> (SameStack(p.breakStack, old(p.breakStack)) && SameStack(p.continueStack, old(p.continueStack)))
 //@   ensures [C18:located] result2 != nil ==> ErrLoc(result2)
 //@   loopinv [C20:stack-balanced-inv] SameStack(p.breakStack, old(p.breakStack)) && SameStack(p.continueStack, old(p.continueStack))
+//@   loop 1
+//@     transition [C01,C03,C10:block-order] len(block.Statements) == len(prev(block.Statements)) + len(statements)
+//@        && (forall k int :: {block.Statements[k]} (0 <= k && k < len(prev(block.Statements))) ==> block.Statements[k] == prev(block.Statements)[k])
+//@        && (forall k int :: {statements[k]} (0 <= k && k < len(statements)) ==> block.Statements[len(prev(block.Statements)) + k] == statements[k])
 //@ end
 
 //@ func (p *Parser) parseStatement
 //@   include ParseFrame
+//@   defines [C10:stmt-count] nstmt = old(nstmt) + len(result0)
 //@   ensures [C18:eof-rejected] result2 == nil ==> old(p.curToken.Type) != token.EOF
 //@   ensures [C06:slot] result2 == nil ==> (ImpOK(result1) && (result1 == nil || fresh(result1)))
 //@   modifies holes
+//@   modifies nstmt
 //@   ensures [C06:complete] result2 == nil ==> ImpSize(result1) == holes - old(holes)
 //@   ensures [C20:stack-balanced] result2 == nil ==> (SameStack(p.breakStack, old(p.breakStack)) && SameStack(p.continueStack, old(p.continueStack)))
 //@   ensures [C18:located] result2 != nil ==> ErrLoc(result2)
@@ -542,6 +565,7 @@ package parser
 //@          && (impData.movements[k].argPos < len(command.Args) || (impData.movements[k].argPos == len(command.Args) && len(argParts) > 0)))
 //@   ensures [C06:slot] result2 == nil ==> (ImpOK(result1) && (result1 == nil || fresh(result1)))
 //@   modifies holes
+//@   modifies nstmt
 //@   defines [C06:holes] holes = old(holes) + ImpSize(result1)
 //@   ensures [C18:cmd-fresh] result2 == nil ==> (result0 != nil && fresh(result0))
 //@   ensures [C20:stack-balanced] result2 == nil ==> (SameStack(p.breakStack, old(p.breakStack)) && SameStack(p.continueStack, old(p.continueStack)))
@@ -727,6 +751,7 @@ package parser
 //@   loopinv [C06:complete-inv] ImpSize(impData) == holes - old(holes)
 //@   ensures [C06:slot] result2 == nil ==> (ImpOK(result1) && (result1 == nil || fresh(result1)))
 //@   modifies holes
+//@   modifies nstmt
 //@   ensures [C06:complete] result2 == nil ==> ImpSize(result1) == holes - old(holes)
 //@   ensures [C20:stack-balanced] result2 == nil ==> (SameStack(p.breakStack, old(p.breakStack)) && SameStack(p.continueStack, old(p.continueStack)))
 //@   ensures [C18:located] result2 != nil ==> ErrLoc(result2)
@@ -780,6 +805,7 @@ package parser
 //@   loopinv [C06:complete-inv] ImpSize(impData) == holes - old(holes)
 //@   ensures [C06:slot] result2 == nil ==> (ImpOK(result1) && (result1 == nil || fresh(result1)))
 //@   modifies holes
+//@   modifies nstmt
 //@   ensures [C06:complete] result2 == nil ==> ImpSize(result1) == holes - old(holes)
 //@   ensures [C20:stack-balanced] result2 == nil ==> (SameStack(p.breakStack, old(p.breakStack)) && SameStack(p.continueStack, old(p.continueStack)))
 //@   ensures [C18:located] result2 != nil ==> ErrLoc(result2)
@@ -790,6 +816,7 @@ package parser
 //@   include ParseFrame
 //@   ensures [C06:slot] result2 == nil ==> (ImpOK(result1) && (result1 == nil || fresh(result1)))
 //@   modifies holes
+//@   modifies nstmt
 //@   ensures [C06:complete] result2 == nil ==> ImpSize(result1) == holes - old(holes)
 //@   ensures [C20:stack-balanced] result2 == nil ==> (SameStack(p.breakStack, old(p.breakStack)) && SameStack(p.continueStack, old(p.continueStack)))
 //@   ensures [C18:located] result2 != nil ==> ErrLoc(result2)
@@ -800,6 +827,7 @@ package parser
 //@   include ParseFrame
 //@   ensures [C06:slot] result2 == nil ==> (ImpOK(result1) && (result1 == nil || fresh(result1)))
 //@   modifies holes
+//@   modifies nstmt
 //@   ensures [C06:complete] result2 == nil ==> ImpSize(result1) == holes - old(holes)
 //@   ensures [C20:stack-balanced] result2 == nil ==> (SameStack(p.breakStack, old(p.breakStack)) && SameStack(p.continueStack, old(p.continueStack)))
 //@   ensures [C18:located] result2 != nil ==> ErrLoc(result2)
@@ -834,6 +862,7 @@ package parser
 //@   loopinv [C06:complete-inv] ImpSize(resultImpData) == holes - old(holes)
 //@   ensures [C06:slot] result3 == nil ==> (ImpOK(result2) && (result2 == nil || fresh(result2)))
 //@   modifies holes
+//@   modifies nstmt
 //@   ensures [C06:complete] result3 == nil ==> ImpSize(result2) == holes - old(holes)
 //@   ensures [C20:stack-balanced] result3 == nil ==> (SameStack(p.breakStack, old(p.breakStack)) && SameStack(p.continueStack, old(p.continueStack)))
 //@   ensures [C18:located] result3 != nil ==> ErrLoc(result3)
@@ -858,6 +887,7 @@ package parser
 //@   include ParseFrame
 //@   ensures [C06:slot] result2 == nil ==> (ImpOK(result1) && (result1 == nil || fresh(result1)))
 //@   modifies holes
+//@   modifies nstmt
 //@   ensures [C06:complete] result2 == nil ==> ImpSize(result1) == holes - old(holes)
 //@   ensures [C20:stack-balanced] result2 == nil ==> (SameStack(p.breakStack, old(p.breakStack)) && SameStack(p.continueStack, old(p.continueStack)))
 //@   ensures [C18:located] result2 != nil ==> ErrLoc(result2)
@@ -868,6 +898,7 @@ package parser
 //@   include ParseFrame
 //@   ensures [C06:slot] result2 == nil ==> (ImpOK(result1) && (result1 == nil || fresh(result1)))
 //@   modifies holes
+//@   modifies nstmt
 //@   ensures [C06:complete] result2 == nil ==> ImpSize(result1) == holes - old(holes)
 //@   ensures [C20:stack-balanced] result2 == nil ==> (SameStack(p.breakStack, old(p.breakStack)) && SameStack(p.continueStack, old(p.continueStack)))
 //@   ensures [C18:located] result2 != nil ==> ErrLoc(result2)
@@ -883,6 +914,7 @@ package parser
 //@   ensures [C02:no-op] (old(p.curToken.Type) != token.AND && old(p.curToken.Type) != token.OR) ==> (result2 == nil && result0 == left)
 //@   ensures [C06:slot] result2 == nil ==> (ImpOK(result1) && (result1 == nil || fresh(result1)))
 //@   modifies holes
+//@   modifies nstmt
 //@   ensures [C06:complete] result2 == nil ==> ImpSize(result1) == holes - old(holes)
 //@   ensures [C20:stack-balanced] result2 == nil ==> (SameStack(p.breakStack, old(p.breakStack)) && SameStack(p.continueStack, old(p.continueStack)))
 //@   ensures [C18:located] result2 != nil ==> ErrLoc(result2)
@@ -903,6 +935,7 @@ package parser
 //@   exit [C11:not-compares-zero] (result2 == nil && usedNotOperator && result0.Type == token.VAR) ==> (result0.Operator == token.EQ && result0.ComparisonValue == "0")
 //@   ensures [C06:slot] result2 == nil ==> (ImpOK(result1) && (result1 == nil || fresh(result1)))
 //@   modifies holes
+//@   modifies nstmt
 //@   ensures [C06:complete] result2 == nil ==> ImpSize(result1) == holes - old(holes)
 //@   ensures [C18:leaf-fresh] result2 == nil ==> (result0 != nil && fresh(result0))
 //@   ensures [C20:stack-balanced] result2 == nil ==> (SameStack(p.breakStack, old(p.breakStack)) && SameStack(p.continueStack, old(p.continueStack)))
@@ -944,11 +977,12 @@ package parser
 //@   include ParseFrame
 //@   requires [C12:at-poryswitch] p.curToken.Type == token.PORYSWITCH
 //@   ensures [C18:consume-strict] result2 == nil ==> Left(p) < old(Left(p))
-//@   exit [C12:select-stmts] result2 == nil ==> (indom(cases, switchValue) ? result0 == cases[switchValue] : (indom(cases, "_") ? result0 == cases["_"] : len(result0) == 0))
-//@   exit [C12:select-imp] result2 == nil ==> (indom(cases, switchValue) ? result1 == caseImpData[switchValue] : (indom(cases, "_") ? result1 == caseImpData["_"] : result1 == nil))
+//@   exit [C03,C10,C12:select-stmts] result2 == nil ==> (indom(cases, switchValue) ? result0 == cases[switchValue] : (indom(cases, "_") ? result0 == cases["_"] : len(result0) == 0))
+//@   exit [C06,C12:select-imp] result2 == nil ==> (indom(cases, switchValue) ? result1 == caseImpData[switchValue] : (indom(cases, "_") ? result1 == caseImpData["_"] : result1 == nil))
 //@   exit [C12:no-case] (result2 == nil && p.enableEnvironmentErrors) ==> (indom(cases, switchValue) || indom(cases, "_"))
 //@   ensures [C06:slot] result2 == nil ==> (ImpOK(result1) && (result1 == nil || fresh(result1)))
 //@   modifies holes
+//@   modifies nstmt
 //@   defines [C06:holes] holes = old(holes) + ImpSize(result1)
 //@   ensures [C20:stack-balanced] result2 == nil ==> (SameStack(p.breakStack, old(p.breakStack)) && SameStack(p.continueStack, old(p.continueStack)))
 //@   ensures [C18:located] result2 != nil ==> ErrLoc(result2)
@@ -962,6 +996,7 @@ package parser
 //@   loopinv [C06:slot-inv] impDatas != nil && fresh(impDatas) && (forall key string :: {indom(impDatas, key)} indom(impDatas, key) ==> (ImpOK(impDatas[key]) && (impDatas[key] == nil || fresh(impDatas[key]))))
 //@   ensures [C06:slot] result2 == nil ==> (forall key string :: {indom(result1, key)} indom(result1, key) ==> (ImpOK(result1[key]) && (result1[key] == nil || fresh(result1[key]))))
 //@   modifies holes
+//@   modifies nstmt
 //@   ensures [C20:stack-balanced] result2 == nil ==> (SameStack(p.breakStack, old(p.breakStack)) && SameStack(p.continueStack, old(p.continueStack)))
 //@   ensures [C18:located] result2 != nil ==> ErrLoc(result2)
 //@   loopinv [C20:stack-balanced-inv] SameStack(p.breakStack, old(p.breakStack)) && SameStack(p.continueStack, old(p.continueStack))
@@ -973,6 +1008,7 @@ package parser
 //@   loopinv [C06:complete-inv] ImpSize(impData) == holes - old(holes)
 //@   ensures [C06:slot] result2 == nil ==> (ImpOK(result1) && (result1 == nil || fresh(result1)))
 //@   modifies holes
+//@   modifies nstmt
 //@   ensures [C06:complete] result2 == nil ==> ImpSize(result1) == holes - old(holes)
 //@   ensures [C20:stack-balanced] result2 == nil ==> (SameStack(p.breakStack, old(p.breakStack)) && SameStack(p.continueStack, old(p.continueStack)))
 //@   ensures [C18:located] result2 != nil ==> ErrLoc(result2)
